@@ -34,7 +34,7 @@ COMPONENTS = {
     'stub': ['joblib.Parallel (SimParallel)', 'user objective/constraints (harness world)', 'time.time', 'uuid1'],
 }
 PROBES_EXPECTED = ['maximised_objective', 'constraint_pairs', 'reeval_same_batch', 'mixed_batch', 'scalar_points',
-                   'sweep_parallel', 'parallel_batches']
+                   'sweep_parallel', 'parallel_batches', 'store_attached', 'foreign_lock']
 
 
 class Shadow:
@@ -123,6 +123,13 @@ def _batch(D):
     ctx = core.Ctx(PID, D, sim)
     workers = 1 + D.weighted('cfg', 'workers', (2, 2, 1))
     w = W.World(D, sim, fail='none', name='c05')
+    db = None
+    if D.dec('cfg', 'store', 4) == 1:
+        # a store is attached; in serial histories another process may hold the database lock while a freshly evaluated
+        # design is written - the write must be retried, never the (hour-long) evaluation
+        db = W.fresh_db('c05')
+        W.attach_store(w, db)
+        ctx.probe('store_attached')
     alg = W.dummy_algorithm(w, workers=workers)
     sh = Shadow(ctx, w)
     nops = 1 + D.dec('cfg', 'nops', 6)
@@ -155,6 +162,10 @@ def _batch(D):
                 batch = batch[:pos] + old[:k] + batch[pos:]
                 ctx.probe('mixed_batch')
         before = {id(i): sh.calls_of.get(id(i), 0) for i in batch}
+        if db and workers == 1 and D.flag('fault', ('foreign_lock', o), 0.3):
+            from .. import seams
+            seams.take_foreign_lock(sim, db, (3.0, 12.0, 31.0, 70.0)[D.dec('fault', ('foreign_hold', o), 4)])
+            ctx.probe('foreign_lock')
         with W.quiet():
             try:
                 alg.evaluate(batch)
@@ -163,6 +174,9 @@ def _batch(D):
             except Exception as e:
                 ctx.violation('unexpected_exception', site, 'evaluate raised %r on a legal batch' % (e,))
                 break
+        if db and sim.foreign_lock is not None:
+            from .. import seams
+            seams.release_foreign_lock(sim)       # the foreign holder never outlives the operation it disturbed
         new = sh.absorb()
         for i, ind in enumerate(batch):
             was_evaluated = before[id(ind)] > 0
@@ -183,7 +197,12 @@ def _batch(D):
         known.append(batch)
         if ctx.violations:
             break
-    ctx.sample = {'family': 'batch', 'workers': workers, 'ops': kinds, 'n': w.n, 'm': w.m, 'signs': w.signs,
+    if db:
+        from .. import seams
+        seams.release_foreign_lock(sim)
+        w.problem.data_store = None
+        W.remove_db(db)
+    ctx.sample = {'family': 'batch', 'store': bool(db), 'workers': workers, 'ops': kinds, 'n': w.n, 'm': w.m, 'signs': w.signs,
                   'ncons': w.ncons, 'box': w.boxkind, 'policy': sim.policy}
     ctx.sig('batch', workers, tuple(kinds), w.n, w.m, tuple(w.signs), w.ncons,
             tuple(round(c.vector[0], 6) for c in w.calls[:3]))
